@@ -677,6 +677,9 @@ def _close_paren(src, mask, po):
     return None
 
 
+SELFTEST_SHIM = '\npub mod spec { pub fn f32_sum_identity() -> f32 { let e: [f32; 0] = []; e.iter().sum() } }\n'
+
+
 def r9_desugar_iterators(srcs, stats):
     """R9: the slice-iterator adapters Verus cannot translate are replaced by the loops they stand for (std's documented semantics of
     enumerate / fold / filter+count / position / for_each on a slice iterator; E is a place expression made of identifiers and field
@@ -754,6 +757,15 @@ def r9_desugar_iterators(srcs, stats):
             m2 = re.match(r'\s*;', src[pc:]) if pc else None
             if not m2: continue
             edits.append((x.start(), pc + m2.end(), '/* R12: println! dropped */' + nl(x.start(), pc + m2.end()), 'R12_println_dropped'))
+        # R14: the f32 sum of a slice: `E.iter().sum::<f32>()`, and `E.iter().sum()` where it is the argument of `float_stack.push(..)` =>
+        #      `({ let mut r14_s: f32 = crate::spec::f32_sum_identity(); for r14_x in E.iter() { r14_s = r14_s + *r14_x; } r14_s })`.
+        #      f32_sum_identity() is a wrapper whose body IS std's empty sum (the self tests add the same one-line function to the scratch crate);
+        #      ASSUMED: std sums a slice iterator left to right starting from that identity.
+        for x in re.finditer(PLACE + r'\.iter\(\)\s*\.\s*sum(::<f32>)?\(\)', src):
+            if not live(x.start()): continue
+            if not x.group(2) and not re.search(r'float_stack\s*\.\s*push\s*\(\s*$', src[max(0, x.start() - 60):x.start()]): continue
+            edits.append((x.start(), x.end(), '({ let mut r14_s: f32 = crate::spec::f32_sum_identity(); for r14_x in %s.iter() { r14_s = r14_s + *r14_x; } r14_s })' % x.group(1)
+                          + nl(x.start(), x.end()), 'R14_f32_sum'))
         # h: the keys of a map, cloned into a vector (iteration order unspecified either way)
         for x in re.finditer(PLACE + r'\.keys\(\)\s*\.\s*cloned\(\)\s*\.\s*collect\(\)', src):
             if not live(x.start()): continue
